@@ -285,6 +285,7 @@ def run(ctx):
     thorough = ctx.tier == "thorough"
     rng = random.Random(ctx.seed)
     torch.manual_seed(ctx.seed)
+    ctx.check_proof("JacCache_proofs")         # AtCurrent, ReevalIffChanged, Unwound for every nesting depth / number of products
     for sw in ("KeyHasObj", "KeyHasY"):
         c = dict(Ids={0, 1}, MaxDepth=2, MaxProducts=2, KeyHasObj=True, KeyHasY=True)
         c[sw] = False
